@@ -227,6 +227,9 @@ func readObject(ber []byte, offset int, depth int) (asn1Object, int, error) {
 			if err != nil {
 				return nil, 0, err
 			}
+			if !indefinite && offset > contentEnd {
+				return nil, 0, errors.New("ber2der: BER element extends beyond its parent")
+			}
 			subObjects = append(subObjects, subObj)
 
 			if indefinite {
